@@ -104,3 +104,7 @@ package proto
 //@ trusted
 //@ pure
 //@ nondet
+
+//@ func SessionMetadata.UnmarshalVT(m, dAtA) (err)
+//@ trusted
+//@ modifies *m
